@@ -110,7 +110,9 @@ def localBound (d : Data) (localtime : Int) : Nat :=
 /-- `TimeZone::Data::findLocalTime(const DateTime& lt, bool postTransition)` with
 `localtime = fromUtcTime(lt)` -/
 def findLocal (d : Data) (localtime : Int) (post : Bool) : LocalTime :=
-  if localUseFirst d.n localtime (d.tr 0).localtime then d.lt 0
+  if localUseFirst d.n localtime (d.tr 0).localtime then
+    -- skipped by the first transition and read after it: `&localtimes[transitions.front().localtimeIdx]`
+    if firstSkipPost post d.n (d.tr 0).utctime (d.lt 0).utcOffset localtime then d.lrec 0 else d.lt 0
   else
     let i := localBound d localtime
     let afterLast : Bool := decide (localAfterLast i d.n)
@@ -130,8 +132,10 @@ def findLocal (d : Data) (localtime : Int) (post : Bool) : LocalTime :=
           if post then d.lrec j else d.lrec prior
         else d.lrec j
       else
+        -- the first transition: prior_trans.localtimeIdx = 0; prior_second = … + localtimes.front().utcOffset
+        let ps := priorSecondFirst (d.tr j).utctime (d.lt 0).utcOffset
         if isRepeat afterLast localtime ps then
-          if post then d.lrec j else d.lrec prior
+          if post then d.lrec j else d.lt priorIdxFirst
         else d.lrec j
 
 /-- `TimeZone::toLocalTime(seconds, &utcOffset)` for a valid zone -/
@@ -151,9 +155,13 @@ namespace Data
 def u (d : Data) (i : Nat) : Int := (d.tr i).utctime
 /-- UTC offset in force from transition `i` on -/
 def o (d : Data) (i : Nat) : Int := (d.lrec i).utcOffset
-/-- absolute size of the offset change made by transition `i` (`0` for the first one: what is in
-force before it plays no role from the first transition on) -/
-def chg (d : Data) (i : Nat) : Int := if i = 0 then 0 else if d.o (i - 1) ≤ d.o i then d.o i - d.o (i - 1) else d.o (i - 1) - d.o i
+/-- UTC offset in force BEFORE transition `i`: that of the transition before it; before the first
+transition `localtimes.front()` is in force (both look-ups use it there, and so does glibc) -/
+def oPrev (d : Data) (i : Nat) : Int := if i = 0 then (d.lt 0).utcOffset else d.o (i - 1)
+/-- the record in force before transition `i` -/
+def prevRec (d : Data) (i : Nat) : LocalTime := if i = 0 then d.lt 0 else d.lrec (i - 1)
+/-- absolute size of the offset change made by transition `i` -/
+def chg (d : Data) (i : Nat) : Int := if d.oPrev i ≤ d.o i then d.o i - d.oPrev i else d.oPrev i - d.o i
 end Data
 
 /-- **Well-formed zone data**: every transition carries the shifted-epoch local time that
